@@ -566,6 +566,24 @@ static void exec_cmd(toks *t) {
         { size_t i; ob_puts(&OUT, "{\"rc\":0,\"hex\":\""); ob_reserve(&OUT, BUF[bi].n * 2 + 8);
           for (i = 0; i < BUF[bi].n; i++) { static const char hx[] = "0123456789abcdef"; OUT.s[OUT.n++] = hx[BUF[bi].p[i] >> 4]; OUT.s[OUT.n++] = hx[BUF[bi].p[i] & 15]; }
           OUT.s[OUT.n] = 0; ob_puts(&OUT, "\"}"); } return; }
+    if (strcmp(c, "bytes.check") == 0) { /* properties of written output: magic, UTF-8 validity, longest line in code points, CIF 1.1 character set */
+        NEED(2); { int bi = slot(t->tok[1], 'B', NBUF); size_t i = 0, n; const unsigned char *p; long maxline = 0, cur = 0, nlines = 1; int utf8ok = 1, c11 = 1, magic = 0, hascr = 0;
+          if (bi < 0) { ob_puts(&OUT, "ERR slot"); return; }
+          n = BUF[bi].n; p = BUF[bi].p;
+          if (n >= 10 && memcmp(p, "#\\#CIF_2.0", 10) == 0) magic = 2; else if (n >= 10 && memcmp(p, "#\\#CIF_1.1", 10) == 0) magic = 1;
+          while (i < n) {
+              unsigned char b = p[i]; unsigned long cp = b; int extra = 0, k;
+              if (b < 0x80) extra = 0; else if ((b & 0xe0) == 0xc0) { extra = 1; cp = b & 0x1f; } else if ((b & 0xf0) == 0xe0) { extra = 2; cp = b & 0x0f; }
+              else if ((b & 0xf8) == 0xf0) { extra = 3; cp = b & 0x07; } else { utf8ok = 0; }
+              if (i + extra >= n + (extra ? 0 : 1) && extra) utf8ok = 0;
+              for (k = 1; k <= extra && i + k < n; k++) { if ((p[i + k] & 0xc0) != 0x80) utf8ok = 0; cp = (cp << 6) | (p[i + k] & 0x3f); }
+              if (extra == 1 && cp < 0x80) utf8ok = 0; if (extra == 2 && (cp < 0x800 || (cp >= 0xd800 && cp <= 0xdfff))) utf8ok = 0; if (extra == 3 && (cp < 0x10000 || cp > 0x10ffff)) utf8ok = 0;
+              i += 1 + extra;
+              if (cp == '\n') { if (cur > maxline) maxline = cur; cur = 0; nlines++; }
+              else { cur++; if (cp == '\r') hascr = 1; if (!(cp == '\t' || (cp >= 0x20 && cp < 0x7f))) c11 = 0; }
+          }
+          if (cur > maxline) maxline = cur;
+          ob_printf(&OUT, "{\"rc\":0,\"n\":%lu,\"magic\":%d,\"utf8\":%d,\"maxline\":%ld,\"cif11chars\":%d,\"lines\":%ld,\"cr\":%d}", (unsigned long) n, magic, utf8ok, maxline, c11, nlines, hascr); } return; }
     if (strcmp(c, "parse") == 0) { cmd_parse(t); return; }
     if (strcmp(c, "walk") == 0) { NEED(2); cmd_walk(t); return; }
     if (strcmp(c, "write") == 0) { NEED(3); cmd_write(t); return; }
